@@ -215,6 +215,23 @@ class Case(object):
     self.results.append(res)
     return verdict
 
+  def identity(self, qname, pairs, assumptions=(), **kw):
+    """Decide  AND_i a_i == b_i  (Frac-aware).  Polynomial pairs are first normalised by z3's rewriter
+    (sum-of-monomials normal form of a_i - b_i, cross-multiplied for fractions): a zero normal form decides the
+    identity; anything else goes to the solver as usual."""
+    rest = []
+    t = time.time()
+    for a, b_ in pairs:
+      if not poly_equal(a, b_):
+        rest.append((a, b_))
+    if not rest:
+      self.results.append(dict(case=self.name, query=qname, verdict='unsat', expect='unsat', solve_s=round(time.time() - t, 3),
+                               kind='main', required=kw.get('required', True), config=self.config,
+                               note='decided by z3 rewriter: polynomial normal form of lhs-rhs is 0 (%d identities)' % len(pairs)))
+      return 'unsat'
+    extra = kw.pop('extra_bad', [])
+    return self.solve(qname, any_of([sym.NE(a, b_) for a, b_ in rest] + list(extra)), assumptions=assumptions, **kw)
+
   def record(self, qname, verdict, expect='unsat', **kw):
     res = dict(case=self.name, query=qname, verdict=verdict, expect=expect, solve_s=0.0,
                kind=kw.pop('kind', 'main'), required=kw.pop('required', True), config=self.config)
@@ -247,6 +264,20 @@ def split_run(build, extra=(), depth=0, budget=None, leaf=''):
         continue
       budget[0] -= 1
       split_run(build, list(extra) + [cond], depth + 1, budget, leaf + tag)
+
+
+def poly_equal(a, b_):
+  """True iff a - b normalises to 0 as a polynomial (sound; incomplete in the presence of if-then-else)."""
+  if isinstance(a, Frac) or isinstance(b_, Frac):
+    an, ad = (a.n, a.d) if isinstance(a, Frac) else (a, 1)
+    bn, bd = (b_.n, b_.d) if isinstance(b_, Frac) else (b_, 1)
+    lhs, rhs = sym.s_mul(an, bd), sym.s_mul(bn, ad)
+  else:
+    lhs, rhs = a, b_
+  if not is_z(lhs) and not is_z(rhs):
+    return lhs == rhs
+  d = z3.simplify(Z(lhs) - Z(rhs), som=True, arith_lhs=True, hoist_mul=False, flat=True)
+  return z3.is_rational_value(d) and d.numerator_as_long() == 0
 
 
 def model_array(m, arr):
